@@ -40,6 +40,27 @@ class ConstantExpressionEvaluator:
             value = expr
         else:  # pragma: no cover
             raise NotImplementedError(str(expr))
+        return self.to_type(expr, value)
+
+    def to_type(self, expr, value):
+        """Reduce an integer result to the range of the type of expr.
+
+        Arithmetic in an unsigned type is modulo 2^N, and a conversion
+        to an integer type (cast, implicit conversion) keeps the low N bits.
+        """
+        typ = getattr(expr, "typ", None)
+        if not isinstance(value, int) or not isinstance(typ, types.CType):
+            return value
+        if isinstance(expr, expressions.UnaryOperator) and typ.is_promotable:
+            # The operand of - and ~ undergoes integer promotion
+            typ = types.BasicType(types.BasicType.INT)
+        if typ.is_integer_or_enum:
+            bits = 8 * self.context.sizeof(typ)
+            value &= (1 << bits) - 1
+            # An enum is represented as int
+            signed = typ.is_signed or not typ.is_integer
+            if signed and value >> (bits - 1):
+                value -= 1 << bits
         return value
 
     def eval_variable_access(self, expr):
